@@ -139,6 +139,16 @@ reg('C16', 'ENUM',
     'values x 10 If-Modified-Since values x sizes 0-4 x GET/HEAD are compared with own range arithmetic; WSGI, WSGI+file_wrapper and ASGI.',
     'symlinks excluded by the property; Windows path semantics not modelled', 'DESIGN.md section 5 C16')
 
+reg('C19', 'THR+AIO+SEQ',
+    'preemption-bounded exhaustive exploration of thread schedules (controlled scheduler, line-granularity scheduling points, cooperative lock), exhaustive ASGI task interleavings on a hand-stepped loop, and all sequential request orders; oracle: every response equals the solo response',
+    '(1) 2-3 first-ever WSGI requests run as real threads under a deterministic scheduler; every schedule with <=2 (thorough 3) preemptions at line granularity '
+    'inside the router (thorough: also App.__call__/_get_responder) is executed, deadlock included; (2) 2-3 ASGI requests run as tasks on a virtual loop and '
+    'every interleaving of their receive/send completions with the loop steps is executed; (3) the requests run sequentially in every order on one app, cold '
+    'and warm process-wide caches. Each observation (status, headers, body incl. params/context seen by the responder, exception) must equal that of the same '
+    'request alone on a fresh app.',
+    'line granularity under the GIL; threading.Lock in falcon.routing.compiled is rebound to a cooperative lock from the harness; a defect that also breaks '
+    'the solo run is outside this differential oracle (C01/C02 cover it)', 'DESIGN.md section 5 C19')
+
 PENDING = {}
 
 ALL = ['C%02d' % i for i in range(1, 21)]
